@@ -25,6 +25,7 @@ import (
 	"github.com/tdewolff/canvas/renderers/pdf"
 
 	"verif/internal/fw"
+	"verif/internal/oracle"
 	"verif/internal/pdfread"
 )
 
@@ -1009,6 +1010,73 @@ func family(name string, alpha []action, depth int, opts []options) fw.Family {
 	}
 }
 
+// longDocs: documents of many pages (the page tree, the object table and the per-page resources of
+// a document that is longer than any bounded history reaches): n pages of alternating sizes, each
+// with the same kind of content, for every n up to 70 and some larger counts around powers of two.
+func longDocs(full []action) fw.Family {
+	byName := map[string]action{}
+	for _, a := range full {
+		byName[a.name] = a
+	}
+	contents := [][]string{
+		{},
+		{"Path(fill=blue@0.5,stroke=black)"},
+		{"Text(DejaVuSerif,\"Hi\")", "AddLink"},
+		{"Image(alpha)", "Path(fill=linear-gradient)"},
+	}
+	var counts []int
+	for n := 1; n <= 70; n++ {
+		counts = append(counts, n)
+	}
+	counts = append(counts, 96, 97, 127, 128, 129, 130, 255, 256, 257, 300)
+	opts := []options{{true, true}, {false, true}}
+	name := fmt.Sprintf("long documents: %d page counts (1..70, 96..300) x %d kinds of page content x Compress on/off", len(counts), len(contents))
+	decode := func(i int64) (options, []action, string) {
+		d := oracle.Digits(i, len(counts), len(contents), len(opts))
+		n, c := counts[d[0]], contents[d[1]]
+		var hist []action
+		for pg := 0; pg < n; pg++ {
+			if pg > 0 {
+				hist = append(hist, byName[[]string{"NewPage(210,297)", "NewPage(50,20.5)"}[pg%2]])
+			}
+			for _, a := range c {
+				hist = append(hist, byName[a])
+			}
+		}
+		return opts[d[2]], hist, fmt.Sprintf("%d pages (sizes alternating), on every page [%s]", n, strings.Join(c, "; "))
+	}
+	return fw.Family{
+		Name: name, N: int64(len(counts) * len(contents) * len(opts)),
+		Desc: func(i int64) string {
+			o, _, what := decode(i)
+			return fmt.Sprintf("pdf.New(100,80,{%v}); %s; Close()", o, what)
+		},
+		Check: func(i int64, r *fw.R) {
+			o, hist, _ := decode(i)
+			data, m, calls, pan := runRecover(o, hist)
+			r.Transitions += calls
+			if pan != "" {
+				r.Outcome("violation:panic")
+				record(r, "panic: "+pan, "the writer panicked instead of producing a document: "+pan)
+				return
+			}
+			fs, h := validate(data, m, r)
+			r.Validated++
+			r.States++
+			r.SetFamily("documents")
+			r.Nontrivial(fmt.Sprintf("%x", h[:12]))
+			r.SetFamily(name)
+			if len(fs) == 0 {
+				r.Outcome("valid")
+			}
+			for _, v := range fs {
+				r.Outcome("violation:" + v.class)
+				record(r, v.class, v.detail)
+			}
+		},
+	}
+}
+
 var allOpts = []options{{true, true}, {false, true}, {true, false}, {false, false}}
 
 func families(tier string) []fw.Family {
@@ -1017,6 +1085,7 @@ func families(tier string) []fw.Family {
 	for d := 0; d <= 2; d++ {
 		fs = append(fs, family(fmt.Sprintf("histories of length %d over %d calls x 4 option sets", d, len(full)), full, d, allOpts))
 	}
+	fs = append(fs, longDocs(full))
 	if tier != "thorough" {
 		// quick: length 3 over the full alphabet with subsetted fonts, over the reduced alphabet with full fonts
 		red := reducedAlphabet(full)
@@ -1048,6 +1117,7 @@ func Prop() *fw.Property {
 			"x {Compress} x {SubsetFonts}, each on a fresh pdf.New writer and closed; the bytes are parsed by an independent reader and checked clause by clause; " +
 			"state = distinct document (SHA-1 of the bytes with CreationDate blanked), transition = one API call, validated trace = one document checked; distinct_nontrivial = globally distinct documents (states is summed per worker)",
 		Assumptions: []string{
+			"long documents: 1..70, 96, 97, 127..130, 255..257 and 300 pages of alternating sizes with one of 4 kinds of content on every page (nothing; translucent path; text + link; image with alpha + gradient)",
 			"depth bound: histories of at most 3 calls (quick; at depth 3 the SubsetFonts=false half uses the reduced alphabet) / 4 calls (thorough; at depth 4 the SubsetFonts=false half uses a reduced 13-call alphabet because each such document costs ~40 ms); longer documents are outside the bound",
 			"trusted base: internal/pdfread (ISO 32000-1 tokenizer, xref, filters, Table 51, Figure 9), compress/zlib, image/jpeg",
 			"fonts: DejaVuSerif.ttf and EBGaramond12-Regular.otf, loaded afresh for every document (the writer mutates font objects while subsetting); the 14 standard fonts, vertical text, rich text with several faces and canvas-embedded objects are outside the alphabet",
